@@ -38,7 +38,7 @@ fn remap(step: &Value, t: usize) -> Value {
         if o.contains_key("t") {
             o.insert("t".into(), json!(t));
         }
-        for k in ["h", "g", "c", "l", "ls", "f", "src", "v"] {
+        for k in ["h", "g", "c", "l", "ls", "f", "src", "v", "held"] {
             if let Some(v) = o.get(k).and_then(|v| v.as_i64()) {
                 if v != 0 {
                     o.insert(k.into(), json!(v + shift));
